@@ -65,9 +65,9 @@ pub const INTERESTING: [u8; 24] = [
     b'~', 0x1f, b'"', b'(', b'/', b'0', b'H', 0xa9, 0xe2,
 ];
 
-pub const METHODS: [&[u8]; 14] = [
+pub const METHODS: [&[u8]; 18] = [
     b"GET", b"POST", b"PUT", b"DELETE", b"OPTIONS", b"POS", b"POSTX", b"GETX", b"G", b"PATCH",
-    b"M-SEARCH", b"get", b"P", b"!#$%&'*+-.^_`|~",
+    b"M-SEARCH", b"get", b"P", b"!#$%&'*+-.^_`|~", b"HEAD", b"PRI", b"CONNECT", b"TRACE",
 ];
 
 pub const VERSIONS: [&[u8]; 12] = [
@@ -79,6 +79,119 @@ pub const NAMES: [&[u8]; 12] = [
     b"Host", b"A", b"Content-Length", b"X-Long-Header-Name-For-Lane-Phases-0123456789", b"Accept",
     b"x", b"Set-Cookie", b"a-b", b"User-Agent", b"!#$%&'*+-.^_`|~", b"Transfer-Encoding", b"E",
 ];
+
+// ---------------------------------------------------------------------------------
+// auto-dictionary: string / byte-string literals of the source under test
+// ---------------------------------------------------------------------------------
+
+/// Literals (2..=64 bytes) found in the non-test, non-comment code of /repo/src. A branch
+/// guarded by a magic literal ("ICY ", an HTTP/2 preface, a method name) is invisible to a
+/// grammar; its literal is in the source, so the generators splice these tokens in.
+pub fn dict() -> &'static Vec<Vec<u8>> {
+    static D: std::sync::OnceLock<Vec<Vec<u8>>> = std::sync::OnceLock::new();
+    D.get_or_init(|| {
+        let root = std::env::var("VERIF_REPO").unwrap_or_else(|_| "/repo".to_string());
+        let mut out: Vec<Vec<u8>> = vec![];
+        for f in ["src/lib.rs", "src/iter.rs", "src/macros.rs", "src/simd/mod.rs", "src/simd/swar.rs", "src/simd/sse42.rs", "src/simd/avx2.rs", "src/simd/runtime.rs", "src/simd/neon.rs"] {
+            if let Ok(s) = std::fs::read_to_string(format!("{}/{}", root, f)) {
+                // drop the unit-test module / test functions at the end of the file
+                let cut = s.find("#[cfg(test)]\nmod tests").or_else(|| s.find("#[test]")).unwrap_or(s.len());
+                for t in extract_literals(&s[..cut]) {
+                    if (2..=64).contains(&t.len()) && !out.contains(&t) {
+                        out.push(t);
+                    }
+                }
+            }
+        }
+        // description strings of the Error type are not protocol tokens, but harmless
+        out.truncate(96);
+        out
+    })
+}
+
+pub fn extract_literals(src: &str) -> Vec<Vec<u8>> {
+    let b = src.as_bytes();
+    let mut out = vec![];
+    let mut i = 0;
+    while i < b.len() {
+        match b[i] {
+            b'/' if b.get(i + 1) == Some(&b'/') => {
+                while i < b.len() && b[i] != b'\n' {
+                    i += 1;
+                }
+            }
+            b'/' if b.get(i + 1) == Some(&b'*') => {
+                i += 2;
+                while i + 1 < b.len() && !(b[i] == b'*' && b[i + 1] == b'/') {
+                    i += 1;
+                }
+                i += 2;
+            }
+            b'\'' => {
+                // char literal or lifetime
+                if b.get(i + 1) == Some(&b'\\') {
+                    // escaped char: skip to the closing quote
+                    i += 2;
+                    while i < b.len() && b[i] != b'\'' {
+                        i += 1;
+                    }
+                    i += 1;
+                } else if b.get(i + 2) == Some(&b'\'') {
+                    i += 3;
+                } else {
+                    i += 1; // lifetime
+                }
+            }
+            b'"' => {
+                i += 1;
+                let mut lit = vec![];
+                while i < b.len() && b[i] != b'"' {
+                    if b[i] == b'\\' && i + 1 < b.len() {
+                        i += 1;
+                        match b[i] {
+                            b'n' => lit.push(b'\n'),
+                            b'r' => lit.push(b'\r'),
+                            b't' => lit.push(b'\t'),
+                            b'0' => lit.push(0),
+                            b'x' => {
+                                let h = std::str::from_utf8(&b[i + 1..(i + 3).min(b.len())]).unwrap_or("0");
+                                lit.push(u8::from_str_radix(h, 16).unwrap_or(0));
+                                i += 2;
+                            }
+                            b'\n' => {
+                                // line continuation: skip leading whitespace of the next line
+                                while i + 1 < b.len() && (b[i + 1] == b' ' || b[i + 1] == b'\t') {
+                                    i += 1;
+                                }
+                            }
+                            c => lit.push(c),
+                        }
+                    } else {
+                        lit.push(b[i]);
+                    }
+                    i += 1;
+                }
+                i += 1;
+                out.push(lit);
+            }
+            _ => i += 1,
+        }
+    }
+    out
+}
+
+/// a dictionary token, or `fallback` when the dictionary is empty
+pub fn dict_token<'a>(u: &mut Choice, fallback: &'a [u8]) -> &'a [u8]
+where
+    'static: 'a,
+{
+    let d = dict();
+    if d.is_empty() {
+        fallback
+    } else {
+        &d[u.below(d.len())]
+    }
+}
 
 fn eol(u: &mut Choice, out: &mut Vec<u8>) {
     match u.weighted(&[200, 48, 4, 4]) {
@@ -155,10 +268,10 @@ pub fn fill(out: &mut Vec<u8>, len: usize, style: usize, seed: u16) {
 /// length distribution: mostly uniform over 0..=70 (all lane phases), a tail to 300,
 /// rarely large.
 fn field_len(u: &mut Choice, big: bool) -> usize {
-    match u.weighted(&[180, 56, 16, if big { 4 } else { 0 }]) {
+    match u.weighted(&[170, 56, 26, if big { 4 } else { 0 }]) {
         0 => u.range(0, 24),
         1 => u.range(0, 70),
-        2 => u.range(71, 300),
+        2 => u.range(71, 400),
         _ => u.range(301, 70000),
     }
 }
@@ -183,10 +296,17 @@ fn sp_run(u: &mut Choice, p: &Profile, out: &mut Vec<u8>) {
 
 pub fn request_line(u: &mut Choice, p: &Profile, out: &mut Vec<u8>) {
     // method
-    match u.weighted(&[120, 60, 60, 16]) {
+    match u.weighted(&[120, 60, 50, 16, 10]) {
         0 => out.extend_from_slice(b"GET"),
         1 => out.extend_from_slice(b"POST"),
         2 => out.extend_from_slice(u.pick_bytes(&METHODS)),
+        4 => {
+            let t = dict_token(u, b"GET");
+            out.extend_from_slice(t);
+            if t.ends_with(b"\n") {
+                return; // a whole-line literal (e.g. a connection preface) stands alone
+            }
+        }
         _ => {
             let n = u.range(0, 12);
             let s = seed16(u);
@@ -219,19 +339,27 @@ pub fn request_line(u: &mut Choice, p: &Profile, out: &mut Vec<u8>) {
     }
     sp_run(u, p, out);
     // version
-    match u.weighted(&[190, 40, 26]) {
+    match u.weighted(&[190, 40, 20, 6]) {
         0 => out.extend_from_slice(b"HTTP/1.1"),
         1 => out.extend_from_slice(b"HTTP/1.0"),
-        _ => out.extend_from_slice(u.pick_bytes(&VERSIONS)),
+        2 => out.extend_from_slice(u.pick_bytes(&VERSIONS)),
+        _ => out.extend_from_slice(dict_token(u, b"HTTP/1.1")),
     }
     eol(u, out);
 }
 
 pub fn status_line(u: &mut Choice, p: &Profile, out: &mut Vec<u8>) {
-    match u.weighted(&[190, 40, 26]) {
+    match u.weighted(&[190, 40, 16, 10]) {
         0 => out.extend_from_slice(b"HTTP/1.1"),
         1 => out.extend_from_slice(b"HTTP/1.0"),
-        _ => out.extend_from_slice(u.pick_bytes(&VERSIONS)),
+        2 => out.extend_from_slice(u.pick_bytes(&VERSIONS)),
+        _ => {
+            let t = dict_token(u, b"HTTP/1.1");
+            out.extend_from_slice(t);
+            if t.ends_with(b" ") {
+                out.pop(); // the delimiter is added below
+            }
+        }
     }
     sp_run(u, p, out);
     // code
@@ -268,14 +396,22 @@ pub fn status_line(u: &mut Choice, p: &Profile, out: &mut Vec<u8>) {
 }
 
 fn ows(u: &mut Choice, out: &mut Vec<u8>) {
-    match u.weighted(&[140, 70, 20, 26]) {
+    match u.weighted(&[140, 70, 20, 20, 6]) {
         0 => out.push(b' '),
         1 => {}
         2 => out.push(b'\t'),
-        _ => {
+        3 => {
             let n = u.range(0, 5);
             for _ in 0..n {
                 out.push(if u.chance(80) { b'\t' } else { b' ' });
+            }
+        }
+        _ => {
+            // long runs (beyond any 16/32/64-byte window), tabs sprinkled by a pattern
+            let n = u.range(6, 200);
+            let pat = u.byte();
+            for i in 0..n {
+                out.push(if pat & 1 == 1 && (i as u8).wrapping_mul(pat | 1) % 7 == 0 { b'\t' } else { b' ' });
             }
         }
     }
@@ -368,10 +504,11 @@ pub fn header_line(u: &mut Choice, p: &Profile, out: &mut Vec<u8>) {
 }
 
 pub fn header_block(u: &mut Choice, p: &Profile, out: &mut Vec<u8>) -> usize {
-    let n = match u.weighted(&[40, 150, 60, if p.big { 6 } else { 0 }]) {
+    let n = match u.weighted(&[40, 150, 60, 4, if p.big { 6 } else { 0 }]) {
         0 => 0,
         1 => u.range(1, 3),
         2 => u.range(0, p.max_headers),
+        3 => u.range(9, 40),
         _ => u.range(9, 300),
     };
     for _ in 0..n {
@@ -463,11 +600,35 @@ pub fn mutate(u: &mut Choice, buf: &mut Vec<u8>) {
     for _ in 0..n {
         let len = buf.len();
         let byte = if u.chance(200) { *u.pick(&INTERESTING) } else { u.byte() };
-        match u.below(6) {
+        match u.below(8) {
             0 | 1 => {
                 if len > 0 {
                     let at = u.below(len);
                     buf[at] = byte;
+                }
+            }
+            6 => {
+                // overwrite with a dictionary token (mostly at a line start)
+                let t = dict_token(u, b"HTTP/1.1").to_vec();
+                let at = if u.chance(160) {
+                    let starts: Vec<usize> = std::iter::once(0).chain(buf.iter().enumerate().filter(|(_, &b)| b == b'\n').map(|(i, _)| i + 1)).collect();
+                    starts[u.below(starts.len())]
+                } else {
+                    u.below(len + 1)
+                };
+                for (i, c) in t.iter().enumerate() {
+                    if at + i < buf.len() {
+                        buf[at + i] = *c;
+                    } else {
+                        buf.push(*c);
+                    }
+                }
+            }
+            7 => {
+                let t = dict_token(u, b"HTTP/1.1").to_vec();
+                let at = u.below(len + 1);
+                for (i, c) in t.iter().enumerate() {
+                    buf.insert(at + i, *c);
                 }
             }
             2 => {
